@@ -7,5 +7,13 @@ THEOREMS = ["c04_only_handlers_of_the_entry_points_kind", "c04_one_kind_per_meth
 def check(run, replay=None):
     run.rule = ("L2: every well-formed exec/query/sudo message of the corpus sent to the entry points (and multitest Contract "
                 "methods) of the two other kinds; handlers run are read from the call log in storage and from the response; "
-                "L1: which name lists / message types each contract-level type uses; non-trivial = distinct (program, route, message)")
-    return msgprops.check(run, "C04", "Props/C04", THEOREMS, {"c04": True}, replay)
+                "L1: which name lists / message types each contract-level type uses, and which message type or registered override each "
+                "operation of the generated multitest Contract impl uses (all single-kind override sets + random subsets); non-trivial = distinct (program, route, message)")
+    rc = msgprops.check(run, "C04", "Props/C04", THEOREMS, {"c04": True}, replay)
+    if not replay:
+        # the multitest Contract impl: every operation reaches only its own kind's message type or override
+        import random
+        from . import mtimpl
+        rng = random.Random(run.seed + 4)
+        mtimpl.run_cases(run, mtimpl.sample_cases(rng, 64 if run.tier == "thorough" else 24), "c04mt")
+    return rc
